@@ -57,6 +57,7 @@ package mangos
 //@   ensures result != nil && result != m && eqseq(result.Body, old(m.Body)) && eqseq(result.Header, old(m.Header))
 //@   ensures fresh_arr(result.Header) && fresh_arr(result.Body) && arrof(result.Header) != arrof(result.Body)
 //@   ensures unchanged(m.Body, m.Header)
+//@   ensures eqseq(result.Body, m.Body) && eqseq(result.Header, m.Header)
 //@
 //@ interface ProtocolPipe.RecvMsg
 //@   ensures result != nil ==> arrof(result.Header) != arrof(result.Body) && len(result.Header) == 0
